@@ -22,7 +22,8 @@ Ltac absurd_hyp :=
   end.
 Lemma nonempty_app (a b : bytes) : negb (isnil (a ++ b)) = negb (isnil a) || negb (isnil b).
 Proof. destruct a, b; reflexivity. Qed.
-Ltac crunch := simpl; rewrite ?nonempty_app; repeat (destr; simpl; rewrite ?nonempty_app); simpl; try solve [auto 14]; try absurd_hyp.
+Ltac crunch := simpl; rewrite ?nonempty_app; repeat (destr; simpl; rewrite ?nonempty_app); try solve [auto 14]; try absurd_hyp;
+  try solve [repeat match goal with x : bytes |- _ => destruct x end; simpl in *; try discriminate; auto 14].
 Ltac start s := destruct s as [sid cs ss pc queue req rc rs fresp ferr live rb pb srv hooks up tun cr ms ab rqe rqf rsf ve vg].
 
 Lemma perr_tail_s isreq code af s : In (abs (fst (perr_tail isreq code af s))) (a_perr_tail isreq af (abs s)).
@@ -54,7 +55,7 @@ Lemma send_response_s already s : In (abs (fst (send_response already s))) (a_se
 Proof. start s. unf; unf; unf. crunch. Qed.
 Lemma resume_conn_stream_s o late c s :
   In (abs (fst (resume_conn_stream o late c s))) (a_resume_conn_stream (is_some late) (is_some c) (abs s)).
-Proof. start s. unf; unf; unf. destruct late, c; crunch. Show 1. Admitted.
+Proof. start s. unf; unf; unf. destruct late, c; crunch. Qed.
 Lemma resume_conn_consume_s c s : In (abs (fst (resume_conn_consume c s))) (a_resume_conn_consume (is_some c) (abs s)).
 Proof. start s. unf; unf; unf. destruct c; crunch. Qed.
 Lemma state_wait_req_headers_s o h es s :
